@@ -851,7 +851,7 @@ def run(ctx):
                     jobs.append((c2, iface)); nb += 1
     ctx.extra_cov["boundary_variants"] = nb
     outs = ctx.lean.drive([line_of(c, 1) for c, iface in jobs])   # both interfaces carry the finiteness guard (legacy since its repair)
-    n_directed = 0
+    n_directed = 0; n_tried = 0
     skipped = 0; hist = {"acc": 0, "rej": 0, "wall": 0, "depth": {}, "nodes_max": 0, "zero_u": 0}
     for (c, iface), mo in zip(jobs, outs):
         desc = {k: c[k] for k in ("d", "eps", "md", "x", "r", "e", "wall", "wall_kind")}; desc["iface"] = iface; desc["int_x0"] = bool(c.get("int_x0")); desc["reused_sampler_from"] = c.get("reuse"); desc["acceptance_draw_moved_to_threshold"] = c.get("boundary"); desc["center"] = c.get("center"); desc["const"] = c.get("const", 0.0)
@@ -913,10 +913,16 @@ def run(ctx):
             if not bad and diff[0] != "acceptance statistic":
                 # failing-input search near the disagreement: exhaustive uniformity of the sub-tree sampling, then give up
                 before = len(ctx.failures)
-                if c["wall"] is None and c["md"] <= 3 and not c.get("reuse") and not c.get("int_x0") and n_directed < 4:
-                    n_directed += 1
-                    # exact reversibility of the orbit kernel at this very input (momentum, slice level, step size)
-                    reversibility_case(ctx, cuqi, c, iface, c["e"], key)
+                if c["wall"] is None and not c.get("reuse") and not c.get("int_x0") and n_directed < 4 and n_tried < 40:
+                    # exact reversibility of the orbit kernel at this very input (momentum, slice level, step size); the depth
+                    # bound is lowered to keep the exact enumeration small (the kernel must be reversible for every depth bound)
+                    n_tried += 1
+                    for md_ in (min(c["md"], 3), 2):
+                        r_ = reversibility_case(ctx, cuqi, dict(c, md=md_), iface, c["e"], key)
+                        if r_ is not None:
+                            n_directed += 1
+                        if r_:
+                            break
                 if len(ctx.failures) == before:
                     oracle_uniform(ctx, cuqi, ctx.rng, 3)
                 if len(ctx.failures) > before:
